@@ -5,7 +5,7 @@ From MV Require Import Base.Prelude Model.Store.
 From MV Require Model.VecStore Model.VecSpec Proofs.VecProofs Model.Timeline Proofs.TimelineProofs Proofs.StoreProofs.
 Local Open Scope N_scope.
 
-(* C14: for every history of the vector-index model outside its two known classes, the documents
+(* C14: for every history of the vector-index model, the documents
    Memvid::open loads from the manifest (`load`) are the documents of the live index, and the
    handle answers VecNotEnabled before exactly when it does after -- unless vec was enabled in
    memory only (placeholder manifest not yet written), in which case both hold no documents *)
@@ -13,12 +13,12 @@ Theorem vec_reload_C14 ops :
   let r := VecStore.vrun VecStore.vstate0 ops in
   let v := snd (fst r) in
   let xs := combine ops (snd r) in
-  VecProofs.vrun_ok [] xs = true -> forallb VecSpec.emb_ok ops = true -> VecStore.known_class ops = false ->
+  VecProofs.vrun_ok [] xs = true ->
   VecStore.mem_index (VecStore.load v) = VecStore.mem_index v /\
   (VecStore.vdisk v = VecStore.vmem v -> VecStore.observe_vec (VecStore.load v) = VecStore.observe_vec v).
 Proof.
-  intros r v xs Hok Hemb Hk.
-  destruct (VecProofs.vrun_inv ops store0 VecStore.vst0 [] [] VecProofs.J0 VecProofs.Inv0 Hok Hemb Hk) as [_ HI].
+  intros r v xs Hok.
+  destruct (VecProofs.vrun_inv ops store0 VecStore.vst0 [] [] VecProofs.J0 VecProofs.Inv0 Hok) as [_ HI].
   change (VecStore.vrun (store0, VecStore.vst0) ops) with r in HI. change (snd (fst r)) with v in HI. clearbody v.
   destruct HI as (_ & _ & _ & _ & Hen & Hdisk & _).
   split.
